@@ -51,7 +51,7 @@ class Coder09(VCoder):
             c += " and (sent('m0') == N('m0')) and (sent('m1') == N('m1'))"
         if kind != 'pre':
             # true by construction (every fragment bumps v and box.n together; a transition's action is exactly one fragment):
-            c += ' and __old__.box.n == __old__.v'
+            c += " and __old__.box.n == __old__.v and __old__.cnt['never set'] == 0"       # (cnt is a collections.Counter)
             if owner_is_transition and kind == 'post':
                 c += ' and __old__.v == v - 1'
         if kind != 'pre':
@@ -140,7 +140,7 @@ def run_case(acc, rnd, tier, case):
         pr = Probes(val=make_val(valseed, p_true))
         pr.cond_plan = cond_plan
         pr.names = []
-        it = Interpreter(sc, initial_context=pr.context(v=0, box=Box(), lst=[], _p=0, res={'h': Handle()}, mathmod=os, SN=pr.names.append,
+        it = Interpreter(sc, initial_context=pr.context(v=0, box=Box(), lst=[], _p=0, res={'h': Handle()}, mathmod=os, cnt=__import__('collections').Counter(), SN=pr.names.append,
                                                         N=lambda name, _l=pr.names: name in _l), ignore_contract=ignore,
                          evaluator_klass=EagerEvaluator if eager else PythonEvaluator, clock=ticking_clock() if ticking else None)
         it.attach(pr.listener())
